@@ -590,6 +590,15 @@ fn do_op(h: &mut Hasher, m: &M, data: &[u8], op: &J, scratch: &str, sid: &str) -
         "set_input_offset" => {
             h.set_input_offset(op.u64("v"));
         }
+        "clone_from_other" => {
+            // continue on a copy made by clone_from into a hasher of another mode, offset and history
+            let mut other = blake3::Hasher::new_keyed(&[0x5a; 32]);
+            other.set_input_offset(8192);
+            other.update(&[7u8; 1500]);
+            other.clone_from(h);
+            *h = other;
+            o.n("count", h.count());
+        }
         "reset" => {
             h.reset();
         }
